@@ -18,7 +18,7 @@ import common as C
 
 LEVEL = "proof"
 TESTGEN = os.path.join(C.BIN, "test_gen")
-EXTRA_GO = (("github.com/goose-lang/goose/cmd/test_gen", "test_gen", {"tags": "verif"}),)
+EXTRA_GO = (("github.com/goose-lang/goose/cmd/test_gen", "test_gen", {"tags": "nohooks"}),)
 
 
 def run_real(ops, scratch):
